@@ -485,6 +485,11 @@ func rootOf(v ssa.Value) ssa.Value {
 		}
 		break
 	}
+	if a, isA := v.(*ssa.Alloc); isA {
+		if p := spilledParam(a); p != nil {
+			return p
+		}
+	}
 	return v
 }
 
@@ -493,6 +498,10 @@ func valueID(v ssa.Value) string {
 	case *ssa.Parameter:
 		return "param:" + x.Name()
 	case *ssa.FreeVar:
+		// a private closure's captured variable is the cell of the function that makes it (inline.go)
+		if r := resolveArg(x); r != ssa.Value(x) {
+			return valueID(r)
+		}
 		return "free:" + x.Name()
 	case *ssa.Global:
 		return "global:" + x.Name()
@@ -502,12 +511,35 @@ func valueID(v ssa.Value) string {
 		}
 		return "const:" + x.Value.ExactString()
 	case *ssa.Alloc:
+		// the cell a parameter was spilled into (it is captured by a closure or a defer) names the parameter
+		if p := spilledParam(x); p != nil {
+			return "param:" + p.Name()
+		}
 		if x.Comment != "" {
 			return "alloc:" + x.Comment + "@" + x.Name()
 		}
 		return "alloc:" + x.Name()
 	}
 	return v.Name()
+}
+
+// spilledParam: the parameter whose only home the cell is — exactly one store into it, of a parameter of its function.
+func spilledParam(a *ssa.Alloc) *ssa.Parameter {
+	var p *ssa.Parameter
+	n := 0
+	if a.Referrers() == nil {
+		return nil
+	}
+	for _, r := range *a.Referrers() {
+		if st, ok := r.(*ssa.Store); ok && st.Addr == ssa.Value(a) {
+			n++
+			p, _ = st.Val.(*ssa.Parameter)
+		}
+	}
+	if n == 1 && p != nil && p.Parent() == a.Parent() {
+		return p
+	}
+	return nil
 }
 
 // staticCallee returns the statically known callee of a call instruction.
@@ -595,7 +627,7 @@ func dominates(a, b ssa.Instruction) bool {
 				if !onEveryPath(x) {
 					return false
 				}
-				h := helperOf(x.Parent())
+				h := exactHelper(x.Parent())
 				if h == nil {
 					return false
 				}
@@ -703,7 +735,7 @@ func guardsAt(b *ssa.BasicBlock) []Guard {
 // rules that ask "is this under any condition at all" must not inherit the caller's conditions.
 func guardsAtDeep(b *ssa.BasicBlock) []Guard {
 	out := guardsAt(b)
-	if h := helperOf(b.Parent()); h != nil && b.Parent().Parent() == nil && len(h.sites) == 1 {
+	if h := exactHelper(b.Parent()); h != nil && len(h.sites) == 1 {
 		out = append(out, guardsAtDeep(h.site.Block())...)
 	}
 	return out
